@@ -155,6 +155,9 @@ func verifyFunc(reg *Registry, pkgRel, key string, closureOrd int) (rep FuncRepo
 	// requires
 	fc.entry = st // so that oldEnv works while evaluating requires
 	env := &SpecEnv{reg: reg, pkg: pkg, st: st, vars: fc.paramVals}
+	if closureOrd > 0 {
+		env.fr = fr // captured locals of the enclosing function are visible by name
+	}
 	for _, cl := range c.Clauses {
 		if cl.Kind == "requires" {
 			st.assume(env.evalBool(cl.Expr))
@@ -175,6 +178,7 @@ func verifyFunc(reg *Registry, pkgRel, key string, closureOrd int) (rep FuncRepo
 	}
 	fc.entry = st.clone()
 	fc.obls = append(fc.obls, &Obligation{Name: name + "/vacuity.pre", Hyps: append([]*Term(nil), st.pc...), Goal: TTrue, Kind: "vacuity", Func: name, Expect: "sat"})
+	fc.ghostHookStmt(st, fr, "entry") // `ghost at entry: g := e` (after the old() snapshot)
 	outs := fr.execBlock(st, body.List)
 	for _, o := range outs {
 		switch o.ctl {
